@@ -142,6 +142,8 @@ func c13Cmd(args []string) error {
 			map[string]any{"id": "hdr", "type": "header", "config": map[string]any{"headers": map[string]any{
 				"X-Cap": `{{ .Request.URL.Captures.id }}`, "X-Who": `{{ .Subject.ID }}`, "X-Multi": "one",
 				"X-Q": `{{ .Request.URL.Query.Get "a" }}`,
+				// renders to nothing: the header is still the pipeline's (it displaces what the client sent)
+				"X-Blank": `{{ .Request.Header "X-Never-Sent" }}`,
 			}}},
 			map[string]any{"id": "hdr2", "type": "header", "config": map[string]any{"headers": map[string]any{"X-Multi": "two"}}},
 			map[string]any{"id": "ck", "type": "cookie", "config": map[string]any{"cookies": map[string]any{
@@ -337,7 +339,11 @@ func c13Cmd(args []string) error {
 		)
 
 		if method == "POST" || method == "PUT" {
-			switch rng.Intn(4) {
+			switch rng.Intn(6) {
+			case 4: // a content type that announces JSON, and no body at all
+				hdrs = append(hdrs, [2]string{"Content-Type", "application/json"})
+			case 5: // the same for a form
+				hdrs = append(hdrs, [2]string{"Content-Type", "application/x-www-form-urlencoded"})
 			case 0:
 				body = []byte(`{"role":"admin","n":[1,2]}`)
 				hdrs = append(hdrs, [2]string{"Content-Type", "application/json"})
@@ -382,7 +388,8 @@ func c13Cmd(args []string) error {
 			qa = q.Get("a")
 		}
 
-		c.CanonUp = [][2]string{{"X-Cap", caps["id"]}, {"X-Multi", "one,two"}, {"X-Q", qa}, {"X-Who", "anonymous"}, {"sess", canonC["sid"] + "-x"}}
+		c.CanonUp = [][2]string{{"X-Cap", caps["id"]}, {"X-Multi", "one,two"}, {"X-Q", qa}, {"X-Who", "anonymous"},
+			{"has:X-Blank", "present"}, {"sess", canonC["sid"] + "-x"}}
 
 		if expect {
 			c.Status = http.StatusOK
@@ -513,6 +520,17 @@ func c13Exec(beds map[string]*client.Client, c *c13Case) error {
 			upm := map[string]string{}
 			for _, h := range []string{"X-Cap", "X-Multi", "X-Q", "X-Who"} {
 				upm[h] = o.PipelineHeader(mode, h)
+			}
+
+			// presence of the header whose value is empty
+			hs := o.Headers
+			if mode == app.Proxy && len(o.Upstream) > 0 {
+				hs = o.Upstream[0].Headers
+			}
+
+			upm["has:X-Blank"] = "absent"
+			if _, ok := hs["X-Blank"]; ok {
+				upm["has:X-Blank"] = "present"
 			}
 
 			upm["sess"] = c13UpstreamCookie(o, mode, "sess")
